@@ -332,7 +332,108 @@ def run_shard(spec):
             if len(heads) != nexp:
                 col.violation("nbdiff-gitrefs-header-count", "argv=%s cwd=%s: %d 'nbdiff a b' headers, %d changed notebooks expected" % (argv, sub or ".", len(heads), nexp), wit, "cli")
         shutil.rmtree(root, ignore_errors=True)
+    for wi in range(3 if spec["repos"] <= 1 else 12):
+        word_flip_case(col, r, os.path.join(d, "flip%d" % wi), spec, wi)
     return col.result()
+
+
+def run_cli_inprocess(argv, cwd):
+    """nbdiff's real main() in THIS process (a long-lived process calling it repeatedly, like the server or a test
+    runner does); returns (status, stdout)"""
+    import contextlib
+    import io
+    import nbdime.nbdiffapp as app
+    from .. import nbd
+    nbd.hygiene()
+    old = os.getcwd()
+    os.chdir(cwd)
+    buf = io.StringIO()
+    try:
+        with contextlib.redirect_stdout(buf):
+            try:
+                status = app.main(["--no-color"] + argv)
+            except SystemExit as e:
+                status = e.code
+    finally:
+        os.chdir(old)
+    return status, buf.getvalue()
+
+
+def word_flip_case(col, r, root, spec, wi):
+    """One word on the command line changes its meaning while the process lives: `HEAD~1` / a branch or tag name is
+    no revision at first (nbdiff then reads it as a path filter) and becomes one after a commit / `git branch`; or
+    the other way round.  Every invocation must examine what git reports for the interpretation valid THEN."""
+    shutil.rmtree(root, ignore_errors=True)
+    os.makedirs(root)
+    repo = Repo(root, r)
+    word = r.choice(["HEAD~1", "HEAD~1", "experiments", "v1.0", "drafts"])
+    direction = "path-then-ref" if word == "HEAD~1" else r.choice(["path-then-ref", "path-then-ref", "ref-then-path"])
+    try:
+        repo.git("init", "-q", "-b", "main")
+        repo.git("config", "core.autocrlf", "false")
+        names = ["a.ipynb", "b.ipynb", "c.ipynb"][: r.choice([2, 3])]
+        for nme in names:
+            with open(os.path.join(root, nme), "w", encoding="utf8") as f:
+                f.write(repo.new_nb())
+        if not word.startswith("HEAD"):
+            os.makedirs(os.path.join(root, word))
+            with open(os.path.join(root, word, "inside.ipynb"), "w", encoding="utf8") as f:
+                f.write(repo.new_nb())
+        repo.git("add", "-A")
+        repo.git("commit", "-q", "-m", "first")
+        first = repo.git("rev-parse", "HEAD", text=True).strip()
+        if not word.startswith("HEAD"):
+            # the directory is gone from the work tree (an unstaged deletion): the word names no existing path
+            shutil.rmtree(os.path.join(root, word))
+        for nme in names[:2]:
+            repo.edit(nme)
+
+        def make_ref():
+            if word.startswith("HEAD"):
+                repo.git("add", "-A")
+                repo.git("commit", "-q", "-m", "second")
+                repo.edit(names[0])
+            elif word.startswith("v"):
+                repo.git("tag", word, first)
+            else:
+                repo.git("branch", word, first)
+
+        def drop_ref():
+            if word.startswith("v"):
+                repo.git("tag", "-d", word)
+            else:
+                repo.git("branch", "-D", word)
+
+        steps = [None, make_ref] if direction == "path-then-ref" else [make_ref, drop_ref]
+        for si, action in enumerate(steps):
+            if action:
+                action()
+            is_ref = subprocess.run(["git", "rev-parse", "--verify", "--quiet", word + "^{commit}"], cwd=root, env=repo.env, capture_output=True).returncode == 0
+            col.eval()
+            wit = {"seed": spec["seed"], "word": word, "direction": direction, "step": si, "word_is_revision_now": is_ref}
+            exp = expected(repo, word, "WORK", []) if is_ref else expected(repo, "HEAD", "WORK", [word])
+            nexp = sum(1 for a, b, ap, bp in exp if _json(a) != _json(b))
+            try:
+                status, out = run_cli_inprocess([word], root)
+            except Exception as e:
+                from .. import nbd
+                key, tmpl = nbd.exc_key(e)
+                col.violation("nbdiff-inprocess-raised:%s" % key, "%s word=%s step=%d" % (str(e)[:150], word, si), wit, "cli-sequence")
+                continue
+            col.mon("cli_sequence_in_one_process")
+            heads = [l for l in out.splitlines() if l.startswith("nbdiff ")]
+            if status not in (0, None):
+                col.violation("nbdiff-gitrefs-nonzero-exit", "in-process, word=%s (revision now: %s) status=%s" % (word, is_ref, status), wit, "cli-sequence")
+            elif len(heads) != nexp:
+                col.violation("word-meaning-frozen-across-invocations", "`nbdiff %s` #%d in one process: %d notebooks examined, git reports %d for the %s reading valid now" % (
+                    word, si + 1, len(heads), nexp, "revision" if is_ref else "path-filter"), wit, "cli-sequence")
+            if nexp:
+                col.count("cli_sequence_steps_with_changed_notebooks")
+            col.count("cli_sequence:%s:%s" % (direction, "revision" if is_ref else "path"))
+    except RuntimeError as e:
+        col.inconc("git harness (word flip): %s" % e)
+    finally:
+        shutil.rmtree(root, ignore_errors=True)
 
 
 def _refid(repo, ref):
